@@ -26,7 +26,8 @@ EXPLANATION = (
     "get_example_bin descends exactly struct.dim levels (get_bin_on_index over struct.bins), never 'while it is a list' -- a bin whose "
     "content is itself a list is the bin, not something to descend into.  (h) The predicates that send a value to the PASS path "
     "(is_tex_file, is_pdf, is_writable, _is_csv, _select_template_or_default) never subscript the value's context: they are "
-    "total and effect-free on every context a dictionary subclass can be.  Does not decide which values are selected.")
+    "total and effect-free on every context a dictionary subclass can be.  Does not decide which values are selected."    " Added after the eighth round of seeded changes and the second round of behaviour-preserving changes: (j) OPTION HONOURED: every field the constructor of a selective element stores from an argument is read by a method on its data path (nested helpers of run included)."
+)
 RULES = {
     "C10-j": "OPTION HONOURED: every option a selective element stores in its constructor from an argument is read by one of its "
              "data-path methods (an accepted but ignored select_bins / get_example_bin silently selects other values)",
